@@ -121,6 +121,8 @@ def describe(ix):
 		return dict(memoryview=ix.tolist(), format=ix.format)
 	if isinstance(ix, slice):
 		return dict(slice=[ix.start, ix.stop, ix.step])
+	if isinstance(ix, range):
+		return dict(range=[ix.start, ix.stop, ix.step])
 	if isinstance(ix, np.generic):
 		return dict(npscalar=ix.item(), dtype=ix.dtype.str)
 	if isinstance(ix, (list, tuple)):
@@ -137,6 +139,8 @@ def undescribe(d):
 		return memoryview(array.array(d['format'], d['memoryview']))
 	if 'slice' in d:
 		return slice(*d['slice'])
+	if 'range' in d:
+		return range(*d['range'])
 	if 'npscalar' in d:
 		return np.dtype(d['dtype']).type(d['npscalar'])
 	if 'list' in d:
@@ -162,7 +166,7 @@ def model_select(L, ix, what):
 		except ValueError:
 			return ('raise', (ValueError,))
 	if what == 'ints':
-		vals = [int(x) for x in (ix.tolist() if hasattr(ix, 'tolist') else ix)]
+		vals = [int(x) for x in (ix.tolist() if hasattr(ix, 'tolist') else list(ix))]
 		out = []
 		for v in vals:
 			if not -n <= v < n:
@@ -281,6 +285,11 @@ def index_expressions(n):
 				big = np.zeros(2 * m, dtype='i8')
 				big[::2] = t
 				yield big[::2], 'ints'
+	# range objects: sequences of integers (each element judged as an integer index - NOT a slice: range(2, -1, -1) is [2, 1, 0])
+	for start in range(-n - 1, n + 2):
+		for stop in range(-n - 1, n + 2):
+			for step in (1, 2, -1, -2):
+				yield range(start, stop, step), 'ints'
 	# the ends of every integer type's range (values that alias small negative or in-range indices once cast to another width)
 	for dt in ('i1', 'i2', 'i4', 'i8', 'u1', 'u2', 'u4', 'u8'):
 		info = np.iinfo(dt)
